@@ -123,6 +123,13 @@ func TestC25(t *testing.T) {
 			if body != nil {
 				fmt.Fprintf(&sb, "Content-Length: %d\r\n", len(body))
 			}
+			if hb := sb.Bytes(); bytes.Contains(hb, []byte("\n\n")) || bytes.Contains(hb, []byte("\n\r\n")) {
+				// a hostile CR/LF produced an empty line inside our header section: on the
+				// HTTP/1 wire that simply ends the client's own header section early (a lenient
+				// parser may take bare LF as line terminator), the rest is the client's garbage
+				rec.Excluded("h1-early-blank-line")
+				return
+			}
 			sb.WriteString("\r\n")
 			sb.Write(body)
 			resp, _, err := w.exchange(sb.Bytes(), 1500*time.Millisecond)
